@@ -389,6 +389,8 @@ class Interp:
             return v
         if isinstance(v, _IMMUTABLE_NATIVE):
             return v
+        if type(v).__module__ == "numpy" and type(v).__name__ != "ndarray" and hasattr(v, "item") and getattr(v, "shape", None) == ():
+            return v.item()         # numpy scalar (int64, float64, bool_): its Python value
         if type(v).__module__ == "numpy" and type(v).__name__ == "ndarray":
             return self.lib.numpy.coerce(self, v)
         if isinstance(v, tuple):
